@@ -81,7 +81,7 @@ class SocWorld(World):
             aw = max(1, (total - 1).bit_length()) + rng.choice([0, 0, 1])
             return {"t": "regs", "aw": aw, "regs": regs}, aw
         if kind == "evmon":
-            n = rng.range(1, 2 * cw)
+            n = rng.range(1, 2 * cw) if not rng.chance(0.25) else rng.range(2 * cw + 1, 4 * cw)
             al = rng.choice([0, 0, 1])
             reg_size = (n + cw - 1) // cw
             aw = 1 + max((reg_size - 1).bit_length(), al)
@@ -477,7 +477,12 @@ class SocWorld(World):
                 """One root-bus access of `word` (wb: word address + select mask; csr: one
                 granule). Returns (acked, data, events)."""
                 events = []
-                if gap or cyc_only:
+                if state.get("b2b_pending"):
+                    # true back-to-back: the previous transfer was acknowledged in the last cycle
+                    # and cyc/stb were never released; the new request is presented right away
+                    state["b2b_pending"] = False
+                    stats.fault("back_to_back")
+                elif gap or cyc_only:
                     if cyc_only and is_wb:
                         stats.fault("cyc_without_stb")
                     elif gap:
@@ -503,6 +508,14 @@ class SocWorld(World):
                             watch(events)
                             break
                         await tick(events)
+                    if acked and state.get("b2b_next"):
+                        # hold cyc and stb through the ack cycle; the next request follows with
+                        # no idle cycle (late strobes would show up in the next access)
+                        state["b2b_next"] = False
+                        state["b2b_pending"] = True
+                        state["t"] += 1
+                        await ctx_.tick()
+                        return acked, data, events
                     if not acked:
                         watch(events)
                     p.set(bus.cyc, 0)
@@ -533,6 +546,8 @@ class SocWorld(World):
                     # the map leaves alignment padding unassigned (decode_address() is None), so
                     # by C01 it must behave like any other unassigned address
                     stats.probe("word_in_alignment_padding_checked")
+                if is_wb and gap == 0 and not cyc_only and (mix(hwseed + word * 7 + we) & 1):
+                    state["b2b_next"] = True      # this access will be followed without a gap
                 if is_wb:
                     if sel == 0:
                         stats.fault("zero_select")
